@@ -23,6 +23,7 @@ import (
 	"pgregory.net/rapid"
 
 	"verif/harness/internal/ev"
+	"verif/harness/internal/vclock"
 )
 
 func TestMain(m *testing.M) {
@@ -38,7 +39,7 @@ type step struct {
 	TTLw int    `json:"ttl_windows,omitempty"`
 	Stay bool   `json:"stay_in_gap,omitempty"` // arrive: do not let the enqueuer proceed to its select yet
 	Pick int    `json:"pick,omitempty"`        // proceed: index among held waiters; fire: index among the timers due first
-	Adv  int    `json:"adv,omitempty"`         // adv: 0 = 1 ns, 1 = W/4, 2 = W/2, 3 = up to 1 ns before the next timer
+	Adv  int    `json:"adv,omitempty"`         // adv: 0 = 1 ns, 1 = W/4, 2 = W/2, 3 = up to 1 ns before the next timer, 4 = exactly to the window boundary without running the processor
 }
 
 type hist struct {
@@ -74,7 +75,11 @@ func genCase(via string) *rapid.Generator[hist] {
 		n := rapid.IntRange(1, 28).Draw(t, "n")
 		steps := make([]step, 0, n)
 		for i := 0; i < n; i++ {
-			op := rapid.SampledFrom([]string{"arrive", "arrive", "arrive", "arrive", "arrive", "fire", "fire", "fire", "proceed", "proceed", "adv", "adv"}).Draw(t, "op")
+			ops := []string{"arrive", "arrive", "arrive", "arrive", "arrive", "fire", "fire", "fire", "adv", "adv"}
+			if c.Gap != "none" {
+				ops = append(ops, "proceed", "proceed")
+			}
+			op := rapid.SampledFrom(ops).Draw(t, "op")
 			s := step{Op: op}
 			switch op {
 			case "arrive":
@@ -89,7 +94,7 @@ func genCase(via string) *rapid.Generator[hist] {
 			case "proceed", "fire":
 				s.Pick = rapid.IntRange(0, 5).Draw(t, "pick")
 			case "adv":
-				s.Adv = rapid.IntRange(0, 3).Draw(t, "adv")
+				s.Adv = rapid.IntRange(0, 4).Draw(t, "adv")
 			}
 			steps = append(steps, s)
 		}
@@ -165,6 +170,45 @@ func (c *ctl) judge(what string, obs string, f func(m *model) string) error {
 	return violation{fmt.Sprintf("%s: observed %s; after the lost hand-off (C10-F1) the defect model predicts %s - neither model explains the observation", what, obs, pd)}
 }
 
+// pending lists the timers that still have a goroutine behind them: the
+// processor's and those of waiters that have not returned (a released waiter
+// leaves its time-to-live timer behind; firing it wakes nobody).
+func (c *ctl) pending() []vclock.Info {
+	out := []vclock.Info{}
+	for _, p := range c.s.clk.Pending() {
+		if strings.Contains(p.Owner, procOwner) {
+			out = append(out, p)
+			continue
+		}
+		for _, w := range c.s.ws {
+			if w.st != mDone && w.timerID == p.ID {
+				out = append(out, p)
+			}
+		}
+	}
+	return out
+}
+
+// jumpTo moves the virtual clock to exactly target without firing anything: the
+// harness registers a marker timer of its own and fires just that one. Timers
+// that become due stay pending (their goroutines have "not been scheduled yet").
+func (c *ctl) jumpTo(target int64) {
+	now := c.s.now()
+	if target <= now {
+		return
+	}
+	before := map[int]bool{}
+	for _, p := range c.s.clk.Pending() {
+		before[p.ID] = true
+	}
+	c.s.clk.After(time.Duration(target - now))
+	for _, p := range c.s.clk.Pending() {
+		if !before[p.ID] {
+			c.s.clk.Fire(p.ID)
+		}
+	}
+}
+
 func (c *ctl) checkProcTimer() error {
 	if c.s.procArmed == 0 {
 		return nil
@@ -184,16 +228,8 @@ func (c *ctl) checkProcTimer() error {
 func (c *ctl) doArrive(prio, ttlW int, stay bool) error {
 	now := c.s.now()
 	if now == c.lastArr {
-		// arrival instants are distinct (two requests never read the same nanosecond in the model's ranking)
-		next := int64(-1)
-		if p := c.s.clk.Pending(); len(p) > 0 {
-			next = p[0].At.UnixNano()
-		}
-		if next >= 0 && next <= now+1 {
-			c.classes["skipped_step"]++
-			return nil
-		}
-		c.s.clk.Advance(1)
+		// arrival instants are distinct (no two requests read the same nanosecond), so ranks are total
+		c.jumpTo(now + 1)
 		now++
 	}
 	c.lastArr = now
@@ -222,8 +258,17 @@ func (c *ctl) doArrive(prio, ttlW int, stay bool) error {
 	if live := c.s.count(mHeld) + c.s.count(mParked); live > c.h.Config.Size {
 		return violation{fmt.Sprintf("%d requests wait, the queue size is %d", live, c.h.Config.Size)}
 	}
-	if obs == "wait" && !stay {
-		return c.doProceed(id)
+	if obs == "wait" {
+		// "its time-to-live really elapsed": the waiter's timer must stand at arrival + ttl
+		for _, p := range c.s.clk.Pending() {
+			if p.ID == c.s.get(id).timerID && p.At.UnixNano() != now+int64(ttl) {
+				return violation{fmt.Sprintf("w%d arrived at t=%s with a time-to-live of %s, its expiry timer is armed for t=%s",
+					id, time.Duration(now-baseNs), ttl, time.Duration(p.At.UnixNano()-baseNs))}
+			}
+		}
+		if !stay {
+			return c.doProceed(id)
+		}
 	}
 	return nil
 }
@@ -340,9 +385,9 @@ func (c *ctl) doTTL(id int) error {
 
 // doFire fires one of the timers that are due first.
 func (c *ctl) doFire(pick int) error {
-	p := c.s.clk.Pending()
+	p := c.pending()
 	if len(p) == 0 {
-		c.classes["skipped_step"]++
+		c.classes["skipped_fire"]++
 		return nil
 	}
 	n := 0
@@ -366,6 +411,22 @@ func (c *ctl) doFire(pick int) error {
 
 func (c *ctl) doAdv(kind int) error {
 	now := c.s.now()
+	next := int64(-1)
+	if p := c.pending(); len(p) > 0 {
+		next = p[0].At.UnixNano()
+	}
+	if kind == 4 {
+		// to exactly the next window boundary, the processor not yet scheduled
+		b := (now/c.W + 1) * c.W
+		if next >= 0 && next < b {
+			kind = 3
+		} else {
+			c.jumpTo(b)
+			c.classes["adv_to_boundary_before_processor"]++
+			c.logf("(advanced to the window boundary; the processor has not run yet)")
+			return nil
+		}
+	}
 	var d int64
 	switch kind {
 	case 0:
@@ -377,16 +438,16 @@ func (c *ctl) doAdv(kind int) error {
 	default:
 		d = c.W
 	}
-	if p := c.s.clk.Pending(); len(p) > 0 {
-		if room := p[0].At.UnixNano() - now - 1; d > room || kind == 3 {
+	if next >= 0 {
+		if room := next - now - 1; d > room || kind == 3 {
 			d = room
 		}
 	}
 	if d <= 0 {
-		c.classes["skipped_step"]++
+		c.classes["skipped_adv"]++
 		return nil
 	}
-	c.s.clk.Advance(time.Duration(d))
+	c.jumpTo(now + d)
 	c.logf("(advanced by %s)", time.Duration(d))
 	return nil
 }
@@ -448,7 +509,7 @@ func runCase(r *ev.Recorder, h hist) (c *ctl, err error) {
 				}
 			}
 			if len(held) == 0 {
-				c.classes["skipped_step"]++
+				c.classes["skipped_proceed"]++
 				continue
 			}
 			err = c.doProceed(held[st.Pick%len(held)])
